@@ -69,7 +69,12 @@ class PackageLoader(BaseLoader):
 
         for path in self.paths:
             source_path = path.joinpath(str(template_path))
-            if source_path.is_file():
+            try:
+                is_file = source_path.is_file()
+            except OSError:
+                # For example, "File name too long".
+                continue
+            if is_file:
                 # MyPy seems to think source_path has `Any` type :(
                 return source_path  # type: ignore
 
